@@ -48,7 +48,24 @@ def run_ops(args):
     try:
         for k, s in enumerate(h):
             op = s["op"]
-            if op == "set":
+            if op == "load":
+                raw = dict((dec(kk), val(vv)) for kk, vv in s["raw"])         # a plain dict, scalars left as scalars
+                if kind == "parsed":
+                    f = Feature(seqid="chr1", featuretype="gene", start=1, end=5, attributes=json.dumps(raw))      # the stored-JSON entrance
+                else:
+                    import gffutils
+                    from .. import dbio
+                    path = ":memory:" if len(h) % 2 else "/dev/shm/vt_c17_%d.db" % __import__("os").getpid()
+                    with dbio.quiet():
+                        db = gffutils.create_db([Feature(seqid="chr1", source="s", featuretype="gene", start=1, end=5, strand="+", attributes=raw)], path, force=True)
+                        if path != ":memory:":
+                            db.conn.close()
+                            db = gffutils.FeatureDB(path)
+                    f = list(db.all_features())[0]
+                    if path != ":memory:":
+                        db.conn.close()
+                        __import__("os").unlink(path)
+            elif op == "set":
                 if s["via"] == "feature":
                     f[dec(s["k"])] = val(s["v"])
                 else:
@@ -218,13 +235,47 @@ def run(ctx):
                 ctx.violation({"line1": lines[i], "line2": lines[j]}, "equality", None)
             if same and hash(f) != hash(g):
                 ctx.violation({"line1": lines[i], "line2": lines[j]}, "hash", None)
-    ctx.count(("eq", len(feats)), True, n=len(feats) ** 2)
+    # the same for objects with a HISTORY: hashed / compared / put in a set first, edited afterwards (a column, an attribute value, a new key),
+    # then compared with a fresh parse of what they print now
+    for i, l in enumerate(lines):
+        bad = edited_object_clause(l, i)
+        if bad:
+            ctx.violation({"line_edit": l, "variant": i % 3}, bad, None)
+    ctx.count(("eq", len(feats)), True, n=len(feats) ** 2 + len(lines))
     ctx.assumptions += ["NaN-like and non-finite numeric strings are outside the numeric_sort domain",
                         "equality pairs use lines inside the C07 grammar, where printing reproduces the line"]
 
 
+def edited_object_clause(line, variant):
+    from gffutils.feature import feature_from_line
+    f = feature_from_line(line)
+    before = feature_from_line(line)
+    h0 = hash(f)
+    bag = {f: 1}
+    if f != before or hash(before) != h0 or before not in bag:
+        return "hash"
+    if variant % 3 == 0:
+        f.start = (f.start or 0) + 1
+    elif variant % 3 == 1:
+        f.attributes["zz"] = ["edited"]
+    else:
+        f.source = "edited_source"
+    g = feature_from_line(str(f))
+    if str(g) != str(f):
+        return None                 # the edited object does not print a line of the grammar: not an equality question
+    if f != g or not (f == g):
+        return "equality_after_edit"
+    if hash(f) != hash(g):
+        return "hash_after_edit"
+    if f == before:
+        return "equality_after_edit"      # the edit changed the printed line
+    return None
+
+
 def replay(ctx, rec):
     c = rec["case"]
+    if "line_edit" in c:
+        return edited_object_clause(c["line_edit"], c["variant"]) is not None
     if "line1" in c:
         from gffutils.feature import feature_from_line
         f, g = feature_from_line(c["line1"]), feature_from_line(c["line2"])
